@@ -1,6 +1,7 @@
 package props
 
 import (
+	"verif/sim/chain"
 	"verif/sim/core"
 	"verif/sim/pool"
 )
@@ -10,23 +11,33 @@ func init() {
 		ID: "C11", Level: "exploration",
 		Batches: []core.Batch{{
 			Name: "pool", Engine: pool.Engine{}, Quick: 300000, Thorough: 4000000,
-			Rule: "a run is non-trivial when the pool accepted at least three commitments and the round was processed at least once",
+			Rule:   "a run is non-trivial when the pool accepted at least three commitments and the round was processed at least once",
+			Weight: 2,
+		}, {
+			Name: "approunds", Engine: chain.Engine{Prop: "C11"}, Quick: 512, Thorough: 6000,
+			Rule:   "a run is non-trivial when at least three heights were produced, the roothash application accepted at least two executor-commit transactions and at least one runtime round was ended by votes or by the round timer (finalized or failed; epoch-transition blocks do not count)",
+			Weight: 3,
 		}},
 		Real: []string{
 			"roothash/api/commitment: VerifyExecutorCommitment, Pool.AddVerifiedExecutorCommitment, Pool.ProcessCommitments, SchedulerCommitment votes, executor commitment signing/verification",
 			"scheduler/api Committee (membership, roles, scheduler rank)",
 			"CBOR and JSON serialisation of the pool",
+			"[approunds] the roothash application inside the chain simulator (all consensus apps behind the real ABCI mux, several replicas): ExecutorCommit transactions, commitment verification against the latest runtime block, the pool persisted in consensus state, EndBlock finalization, round-timer arming / re-arming / expiry by height, discrepancy events, runtime blocks (normal, failed, epoch transition, suspended), runtime message dispatch, incoming message queue, incorrect-result slashing, liveness statistics; committees elected by the real scheduler application",
 		},
 		Stub: []string{
 			"roothash application (commit transaction, finalization, timeout scheduling): replaced by a driver that calls verify+add per delivered commitment and ProcessCommitments with the application's retry-after-discrepancy pattern, and starts a fresh pool after a finalized or failed round",
 			"compute nodes and P2P/consensus transport: simulated emitters and a network with drop, duplicate, delay/reorder",
 			"registry node lookup (RAK): static table",
+			"[approunds] compute nodes: the simulator signs executor commitments with the genesis compute nodes' identity keys (non-TEE runtime) and submits them as transactions of ordinary accounts or of the nodes; consensus reactor, mempool and clients as in the other chain properties",
 		},
 		Assumptions: []string{
 			"'present' primary votes are votes that carry the scheduler's result; failure indications are counted against the straggler allowance, not as present",
 			"a scheduler counts as having committed once a well-formed commitment to its own proposal reached the pool before discrepancy resolution started (whether or not the pool admitted it)",
 			"a committee lists a node at most once per role; a node may hold both roles",
-			"application level (block emitted, timeout re-arming, state root unchanged on failure) is not exercised by this batch",
+			"[pool] application level (block emitted, timeout re-arming, state root unchanged on failure) is not exercised by the pool batch; the approunds batch covers it",
+			"[approunds] a vote counts when a successful ExecutorCommit transaction carried it, the application announced it (ExecutorCommittedEvent) and the oracle itself finds it signed by the named node, for the round being decided, based on the latest runtime block and from a member of the committee the scheduler elected; a member's first vote per scheduler is the one that counts",
+			"[approunds] the round timer is the one recorded in the runtime's consensus state (NextTimeout); 'never just keeps waiting' is checked at the block whose height equals it: that block must show a first discrepancy declaration, the end of the round, or a restart of the timer because a better-ranked scheduler committed in that block; an open round must never carry a timer that is not in the future",
+			"[approunds] allowed stragglers come from the genesis runtime descriptor (the workload never updates it); committee membership and order come from the scheduler application's state (C14 decides elections)",
 		},
 	})
 }
